@@ -191,3 +191,23 @@ def time_variants(make, stride=1):
             run.inject = {p: [("advance", d)]}
             run.run()
             yield ("time", d, p), run
+
+
+def sequential_decide(run, en):
+    """One caller at a time: the next one arrives only when nobody is in flight."""
+    live = run.live()
+    for kind in ("gate", "op"):
+        for st in en:
+            if st[0] == kind:
+                return st
+    if not live:
+        for st in en:
+            if st[0] == "start":
+                return st
+    for st in en:
+        if st[0] == "tick":
+            return st
+    for st in en:
+        if st[0] == "start":
+            return st
+    return None
